@@ -286,7 +286,14 @@ def run(tier, seed, only=None):
                       "initial is_in_data; after EVERY step all observables (id,shape,x,y,phase_id,rotations,props,row,"
                       "col,get_map_data of float/int/array item) are compared model-vs-implementation inside Coq and "
                       "checked against the numpy reference oracle (which also checks that a 2-D (n,3) item still gives "
-                      "one RGB triple per point); distinct = distinct (map spec, op list); "
+                      "one RGB triple per point); audit strata (oracle only, x/* in strata): secondary accessors "
+                      "(is_indexed, phases_in_data, rotations_shape, orientations, both access paths of a property, "
+                      "bool/float32/2-D properties) and get_map_data of phase_id/id/x/y/is_indexed/rotations/orientations "
+                      "and its decimals=/fill_value= paths on every state; int64/float32 coordinates, "
+                      "create_coordinate_arrays, constant y, CrystalMap(rotations) alone, x/y origins of different modes, "
+                      "maps up to 40x40; NumPy-integer keys (bare, tuple, slice bounds); sibling selections read "
+                      "interleaved; deepcopy() inside the history; property writes through a selection; plot() image "
+                      "arrays; distinct = distinct (map spec, op list); "
                       "non-trivial = at least one selection applied")
     return ck.finish()
 
@@ -296,8 +303,10 @@ def replay(path):
     print(json.dumps(d, indent=1)[:4000])
     rep = d.get("replay") or {}
     if "spec" in rep and "ops" in rep:
+        # rep["extra"]: a failure of one of the audit strata with a history shape of its own (siblings, deepcopy,
+        # property writes, plotting wrapper), replayed by the stratum's own routine
         out = run_impl("c11.py", {"seed": d.get("seed", 0), "only": [{"spec": rep["spec"], "ops": rep["ops"],
-                                                                     "tag": "replay"}]})
+                                                                     "tag": "replay", "extra": rep.get("extra")}]})
         for f in out["fails"]:
             print(f"REPLAY-FAILURE sig={f['sig']}: {f['what']}")
         if not out["fails"]:
